@@ -189,22 +189,9 @@ def r3(ctx):
     # --- handleReceive
     hr = fb.fn('ebusd::DirectProtocolHandler::handleReceive')
     ctx.touch(hr)
-    found = False
-    recvSymbol = hr.outarg('Device::recv', 1)
-    if recvSymbol is None:
-        raise AnalysisBroken('C11.R3: Device::recv call in handleReceive not found')
-    for nid, d, rhs, op, lhs in hr.assignments():
-        if d and d.endswith(':' + recvSymbol) and op == '=' and rhs is not None:
-            k = hr.key(rhs)
-            if '?' in k and recvSymbol + ' ==' in k:
-                atoms = dict((a[0], a[1]) for a in hr.atoms(nid))
-                found = True
-                ok = k in ('((%s == #0) ? #%d : #%d)' % (recvSymbol, ESC, SYN), '((%s == #1) ? #%d : #%d)' % (recvSymbol, SYN, ESC))
-                ok = ok and atoms.get('this.m_escape') is True and atoms.get('(%s <= #1)' % recvSymbol) is True
-                ctx.ob('C11.R3', hr, nid, ok, 'handleReceive unescape', 'unescape %s under %s' % (
-                    k, sorted((a, b) for a, b in atoms.items() if 'escape' in a or recvSymbol in a)))
-    if not found:
-        raise AnalysisBroken('C11.R3: unescape assignment in handleReceive not recognised')
+    # the mapping 00 -> A9, 01 -> AA is decided by evaluating the unescape assignment(s), whatever form they take
+    import rules.C01 as _c01
+    _c01.unescape_rule(ctx, 'C11.R3')
 
 
 def nibble(fn, nid):
